@@ -219,6 +219,12 @@ def main(ctx):
         cases.append({"free": {"n": 16, "ops": 16, "runs": 1, "procs": (0, 2, 4)[k % 3], "only": "Recompose", "seed": ctx.seed + k}})
     cases.append({"free": {"n": 8, "ops": 60 if q else 300, "runs": 1 if q else 4, "procs": 0, "only": "jp."}})
     cases.append({"free": {"n": 8, "ops": 60 if q else 300, "runs": 2 if q else 6, "procs": 2, "only": "Marshal,Bytes,pretty.Writer"}})
+    # every writer entry point at the same time on strings full of DIFFERENT \\u00XX / <>& escapes (shared writer scratch),
+    # and the shared filters whose regular expressions are string operands (shared compile caches)
+    writers = "oj.JSON,oj.Marshal,oj.Write,sen.String,sen.Bytes,sen.Write,pretty.,Decompose,Generify"
+    cases.append({"free": {"n": 16, "ops": 40 if q else 300, "runs": 1 if q else 4, "procs": 0, "only": writers}})
+    cases.append({"free": {"n": 4, "ops": 60 if q else 300, "runs": 1 if q else 4, "procs": 0, "only": writers}})
+    cases.append({"free": {"n": 8, "ops": 80 if q else 400, "runs": 1 if q else 4, "procs": 0, "only": "(rx)"}})
     recs = judge(ctx, cases)
     for r in recs:
         ctx.add(r["api"], r["kind"], r["locus"], r["witness"], case=r["case"], detail=r.get("detail"))
@@ -232,7 +238,7 @@ def main(ctx):
                        "around 1024 / 4096 / 65536 bytes) and focused menus in fresh processes (nested recomposer types on first "
                        "use, shared filters with multi-valued operands, buffer-returning calls); every recorded run "
                        "judged by TLC. distinct_nontrivial = distinct program tuples replayed."
-                       % ("pool.Get/pool.Put gates (hooks present) and whole calls" if hooks else "whole calls (no hooks in the tree)", 54))
+                       % ("pool.Get/pool.Put gates (hooks present) and whole calls" if hooks else "whole calls (no hooks in the tree)", 66))
     ctx.sample(scheds[len(scheds) // 2])
     ctx.sample(cases[1])
     ctx.assumptions += [
